@@ -625,7 +625,7 @@ def coreCompare (j : Json) : Except String Json := do
           let vals : List Float := (match (j.getObjVal? "pool").bind poolOf with | .ok pool => pool.toList | _ => []) ++ [0.0, 1.0, -1.0, 2.5]
           let sem := FloatSem.sem
           let semok := vals.all (fun v => sem.alu "sub" [sem.ofNat 0, v] == floatCfg.negV v && sem.alu "move" [v] == v &&
-              (!floatCfg.isOne v || sem.truthy v) && sem.truthy v == sem.cond "nez" [v] &&
+              (!floatCfg.isOne v || sem.truthy v) && sem.truthy v == sem.cond "nez" [v] && sem.truthy (sem.alu "seqz" [v]) == sem.cond "eqz" [v] &&
               vals.all (fun w => sem.alu "select" [v, w, 7.0] == (if sem.truthy v then w else 7.0) && sem.alu "select" [v, 7.0, w] == (if sem.truthy v then 7.0 else w)) &&
               vals.all (fun w => PV.Flatten.cmpNames.all (fun op => match PV.Flatten.branchPair op with
                 | some (c, _) => sem.truthy (sem.alu op [v, w]) == sem.cond c [v, w]
